@@ -6,11 +6,11 @@ package main
 
 import (
 	"fmt"
-	"os"
 	"go/ast"
 	"go/constant"
 	"go/token"
 	"go/types"
+	"os"
 	"sort"
 	"strings"
 
@@ -64,7 +64,8 @@ type Obligation struct {
 }
 
 type Exec struct {
-	inHavoc bool // modelling a callee's or a loop's writes, not a write of the function under verification
+	tinvDone        map[string]bool
+	inHavoc         bool        // modelling a callee's or a loop's writes, not a write of the function under verification
 	offeredForms    [][2]string // (formula with offered witnesses, plain formula) since the last check/assume
 	topEntryAlloc   Term        // allocation map at entry of the function under verification
 	curPos          token.Pos   // position of the instruction being executed
